@@ -15,7 +15,7 @@ import (
 
 var bufSizes = []int{0, 16, 17, 100, 4096} // 0: the chunk reader is handed to ReadFrom directly (a plain io.Reader)
 
-var chunkClasses = []string{"short-reads", "eof-with-data", "zero-nil-read"}
+var chunkClasses = []string{"short-reads", "eof-with-data", "zero-nil-read", "two-chunks"}
 
 // chunkings of one class for an encoding of n bytes.
 func chunkings(class string, n int, tier string) []chunking {
@@ -28,7 +28,20 @@ func chunkings(class string, n int, tier string) []chunking {
 			{name: "9", size: 9, zeroAt: -1},
 			{name: "1000", size: 1000, zeroAt: -1},
 			{name: "halves", halves: true, zeroAt: -1},
+			{name: "random-a", rnd: 0x9e3779b97f4a7c15, zeroAt: -1},
+			{name: "random-b", rnd: 0xc2b2ae3d27d4eb4f, zeroAt: -1},
+			{name: "random-c", rnd: 0x165667b19e3779f9, zeroAt: -1},
 		}
+	case "two-chunks":
+		// the transport breaks the stream at ONE byte: every position for small objects (each fixed-size field is
+		// split at each of its bytes), else the first 256, every 61st and the last 64 (trailing seeds, counts)
+		var cs []chunking
+		for k := 1; k < n; k++ {
+			if n <= 1024 || tier == "thorough" && n <= 8192 || k <= 256 || k%61 == 0 || k >= n-64 {
+				cs = append(cs, chunking{name: "split", splitAt: k, zeroAt: -1})
+			}
+		}
+		return cs
 	case "eof-with-data":
 		return []chunking{
 			{name: "full+EOF", eofWithData: true, zeroAt: -1},
@@ -265,8 +278,8 @@ func fragValue(x *lc, k int) {
 			if bs != 0 && bs != 4096 && !bad(run(nil, 4096, ch)) {
 				env = "bufio<4096+" + class
 			}
-			x.c.Fail(sig("fragmentation", culprit(bs, ch), env), "%s [%s] (%d valid bytes) read through %s with chunking %s (zero-read at %d): %s",
-				x.e.name, x.label(), len(x.o.wbin), bufName(bs), ch.name, ch.zeroAt, describe(r))
+			x.c.Fail(sig("fragmentation", culprit(bs, ch), env), "%s [%s] (%d valid bytes) read through %s with chunking %s (zero-read at %d, split at %d): %s",
+				x.e.name, x.label(), len(x.o.wbin), bufName(bs), ch.name, ch.zeroAt, ch.splitAt, describe(r))
 		}
 		x.c.Count(len(jobs))
 		x.c.Outcome(x.name, x.label(), bs, class, nbad)
